@@ -25,6 +25,8 @@ def value_types(kind, k):
             ("f32", [0.1 * (i + 1) for i in range(k)], "float32"),
             ("i64", [int(i + 1) for i in range(k)], "int64"),
             ("scale202300", [202301.0 + i for i in range(k)], None),
+            # int64 magnitudes above 2**53, two apart: not representable as float64 (all of them round to 2**60)
+            ("i64big", [2**60 + 1 + 2 * i for i in range(k)], "int64"),
         ]
     base = [
         ("str", ["a", "b", "c", "d"][:k], None),
